@@ -89,7 +89,7 @@ def classic_2sum(a: fp.Real, b: fp.Real):
 
     s = a + b
     aa = s - b
-    bb = s - a
+    bb = s - aa
     ea = a - aa
     eb = b - bb
     t = ea + eb
